@@ -13,6 +13,8 @@ import (
 	"time"
 
 	"github.com/sdcio/data-server/pkg/cache"
+	"github.com/sdcio/data-server/pkg/datastore/types"
+	"github.com/sdcio/data-server/pkg/tree"
 	"github.com/sdcio/data-server/pkg/verifrt"
 	sdcpb "github.com/sdcio/sdc-protos/sdcpb"
 )
@@ -354,4 +356,84 @@ func VerifFaultRetry() {
 	post := pre.apply(reqs)
 	post.assertIntended(renv, pre, reqs, lbl+"-intended")
 	post.assertDevice(pre, reqs, dev, lbl)
+}
+
+// ---- C03: the replace intent
+
+// vStepReplace runs the requests plus a replace intent as one TransactionSet,
+// the way pkg/server/transaction.go builds it (name "replace", priority ReplaceValuesPrio).
+func vStepReplace(env *vEnv, sc *vScenario, id string, reqs []*vRequest, repl *vRequest, dryRun bool) (*sdcpb.TransactionSetResponse, error) {
+	ctx := context.Background()
+	var tis []*types.TransactionIntent
+	for _, r := range reqs {
+		ti, err := env.ds.SdcpbTransactionIntentToInternalTI(ctx, r.toProto(sc))
+		if err != nil {
+			return nil, err
+		}
+		tis = append(tis, ti)
+	}
+	rp := repl.toProto(sc)
+	rp.Priority = tree.ReplaceValuesPrio
+	rp.Intent = tree.ReplaceIntentName
+	rti, err := env.ds.SdcpbTransactionIntentToInternalTI(ctx, rp)
+	if err != nil {
+		return nil, err
+	}
+	return env.ds.TransactionSet(ctx, id, tis, rti, vTxnTimeout, dryRun)
+}
+
+// VerifReplaceIntent: C03 for transactions that carry a replace intent. The
+// replace intent holds the range-restricted leaf with an arbitrary (valid or
+// out-of-range) value; optionally one ordinary intent (valid or invalid) goes with it.
+func VerifReplaceIntent() {
+	sc := vScenarioRange()
+	env := vNewEnv()
+	pre := vArbitraryState(sc)
+	rl := sc.leaves[0]
+	for _, o := range sc.owners {
+		if pre.pres[rl.id][o] {
+			verifrt.Assume(verifrt.Implies(pre.wins(rl, o), vRangeValid(pre.val[rl.id][o].u)))
+		}
+	}
+	if pre.rpres[rl.id] {
+		verifrt.Assume(vRangeValid(pre.rval[rl.id].u))
+	}
+	pre.install(env)
+	// the replace intent: the range leaf with an arbitrary value
+	repl := &vRequest{owner: "replace", prio: 1, pres: map[string]bool{rl.id: true}, val: map[string]vVal{rl.id: rl.newVal("repl.val")}}
+	replValid := vRangeValid(repl.val[rl.id].u)
+	var reqs []*vRequest
+	if verifrt.Param("withIntent", 0) == 1 && verifrt.Bool("withIntent") {
+		reqs = []*vRequest{vArbitraryRequest(pre, "req.", verifrt.Choice("req.owner", len(sc.owners)))}
+	}
+	dry := verifrt.Bool("dryRun")
+	before := vSnapshot(env.model)
+	verifrt.Reach("state-built")
+
+	rsp, err := vStepReplace(env, sc, "t1", reqs, repl, dry)
+	verifrt.Reach("step-done")
+
+	if !replValid {
+		verifrt.Reach("replace-invalid")
+		// a failing replace intent is surfaced as an error or as reported intent errors, never as success
+		verifrt.Assert(err != nil || vHasErrors(rsp), "C03-failing-replace-intent-not-success")
+		verifrt.Assert(env.tgt.Sets == 0, "C03-failing-replace-intent-nothing-sent")
+		vAssertSameBuckets(before, vSnapshot(env.model), "C03-failing-replace-intent-stores-unchanged")
+		return
+	}
+	if dry {
+		verifrt.Reach("replace-dry-run")
+		verifrt.Assert(env.tgt.Sets == 0, "C03-dry-run-with-replace-intent-nothing-sent")
+		vAssertSameBuckets(before, vSnapshot(env.model), "C03-dry-run-with-replace-intent-stores-unchanged")
+		return
+	}
+	if err != nil || vHasErrors(rsp) {
+		verifrt.Reach("replace-valid-but-rejected")
+		// an ordinary intent of the same transaction failed validation: nothing of the transaction may have been applied
+		verifrt.Assert(env.tgt.Sets == 0, "C03-rejected-with-replace-intent-nothing-sent")
+		vAssertSameBuckets(before, vSnapshot(env.model), "C03-rejected-with-replace-intent-stores-unchanged")
+		return
+	}
+	verifrt.Reach("replace-applied")
+	verifrt.Assert(env.tgt.Sets >= 1, "C03-valid-replace-intent-sent")
 }
